@@ -171,8 +171,9 @@ pub fn via_go(run: &'static Run) -> (u64, u64) {
                             };
                             // the command loop must arrive at the limits of the mover's own clock situation, whatever else the
                             // line says about the other side
+                            // (only without a configured overhead: which layer deducts the overhead is the implementation's business)
                             match limits(white, rem, inc, mtg, oh, false) {
-                                Ok(direct) if direct != (soft, hard) => {
+                                Ok(direct) if oh == 0 && direct != (soft, hard) => {
                                     run.violation("go-limits-differ-from-clock", format!("go-limits-differ|{key}"), case.clone(), format!("{key}: the go command leads to limits {:?}, the mover's clock situation (remaining {rem}, increment {inc}, movestogo {mtg:?}, overhead {oh}) gives {:?}", (soft, hard), direct));
                                 }
                                 _ => {}
